@@ -308,8 +308,32 @@ def check(c):
                 if all(bool(torch.isfinite(p_).all()) for net_ in s_.networks for p_ in getattr(s_, net_).parameters()):
                     looks_[0] += 1
                     own_metrics(f"look #{looks_[0]} from inside a callback of a running fit", "inside-fit-callback")
-            state.fit(dat_, epochs=2, pos_batch_size=2, lr=0.05, callbacks=[guard_, LambdaCallback(on_batch_end=lambda s_, e_, b_: look_(s_), on_epoch_end=lambda s_, e_: look_(s_))],
+            # ... and the library's own evaluator with metrics of TWO states of the same size (the trained one and another one with other
+            # parameters) evaluated at the same epoch ends: each metric reports the quantity of the state it was asked about
+            from qucumber.callbacks import MetricEvaluator
+            other_ = gen.build_state(dict(sc, am=c["alt"]["am"], ph=c["alt"].get("ph")))
+            sp_o = other_.generate_hilbert_space()
+            if dens:
+                oo_ = R.lib_to_c(other_.rho(sp_o, sp_o)); oo_ = oo_ / oo_.diagonal().real.sum(); p0_other = float(oo_[0, 0].real)
+            else:
+                oo_ = R.lib_to_c(other_.psi(sp_o)); p0_other = float((oo_[0].abs() ** 2) / (oo_.abs() ** 2).sum())
+            row0_ = R.rows_from_indices([0], n)
+            expect_self = []
+
+            def note_(s_):
+                o_ = own_now()
+                expect_self.append(float(o_[0, 0].real) if dens else float(o_[0].abs() ** 2))
+            two_ = MetricEvaluator(1, {"self_nll": lambda s_, **kw_: TS.NLL(s_, row0_.clone(), space), "other_nll": lambda s_, **kw_: TS.NLL(other_, row0_.clone(), sp_o),
+                                       "self_nll_again": lambda s_, **kw_: TS.NLL(s_, row0_.clone(), space)})
+            state.fit(dat_, epochs=2, pos_batch_size=2, lr=0.05, callbacks=[guard_, LambdaCallback(on_batch_end=lambda s_, e_, b_: look_(s_), on_epoch_end=lambda s_, e_: (look_(s_), note_(s_))[0]), two_],
                       **({} if t == "positive" else {"input_bases": np.array([["Z"] * n] * dat_.shape[0])}))
+            if not div_[0] and len(two_) == len(expect_self):
+                for i_, p_ in enumerate(expect_self):
+                    if p_ > 1e-12 and p0_other > 1e-12:
+                        got_ = (two_.get_value("self_nll", i_), two_.get_value("other_nll", i_), two_.get_value("self_nll_again", i_))
+                        want_ = (-math.log(p_), -math.log(p0_other), -math.log(p_))
+                        require(all(abs(g_ - w_) <= 1e-7 * (1 + abs(w_)) for g_, w_ in zip(got_, want_)), "inside-fit-callback:two-states-one-evaluator",
+                                f"a MetricEvaluator whose metrics ask about two states of the same size (the trained one, another one, the trained one again) recorded {got_} at its evaluation #{i_}, expected {want_}")
             state.stop_training = False
             gen.set_net(state.rbm_am, sc["am"])
             if sc.get("ph"):
